@@ -76,7 +76,7 @@ def value_pool(b, rng, u):
     n = u()
     common = [n, -n, n + 0.5, 'v%d' % n, None, BIG + str(n), '']
     if b['kind'] == 'sql':
-        return rng.choice(common + [b'\x00\xff%d' % n])
+        return rng.choice(common + [b'\x00\xff%d' % n, '%d.0' % n, '00%d' % n])   # numeric-looking text stays text
     if is_json(b):
         return rng.choice(common + [[n, [2, 3]], {'k': [n, 2]}, True, float('inf')])
     if is_source(b):
@@ -522,6 +522,16 @@ class Run03(object):
             other['eq-extra'] = 1
             if (a == other) or not (a != other):
                 self.bad('eq-wrong', 'archives with different contents compare equal')
+            other.pop('eq-extra')
+            if M:
+                # same size, same values, one key renamed (the value may well be None)
+                k0 = sorted(M, key=repr)[0]
+                newk = 'eqrenamed' if not (b['kind'] == 'dir' and is_source(b)) else 'eqrenamed'
+                other.pop(k0)
+                other[newk] = M[k0]
+                if (a == other) or not (a != other):
+                    self.bad('eq-wrong', 'archives that differ in one key (%r vs %r, same value %s) compare equal'
+                             % (k0, newk, _s(M[k0])))
         finally:
             try:
                 other.__drop__()
@@ -551,7 +561,7 @@ def run_case_c03(case):
 # C08: synchronisation algebra
 
 OPS08 = ['cset', 'cset', 'cdel', 'cpop', 'cupdate', 'cclear', 'aset', 'aset', 'adel', 'dump', 'dumpk',
-         'load', 'loadk', 'sync', 'syncclear', 'off', 'on', 'on', 'open', 'drop']
+         'load', 'loadk', 'sync', 'syncclear', 'off', 'on', 'on', 'open', 'drop', 'assign']
 
 
 def gen_case_c08(rng):
@@ -570,10 +580,18 @@ def gen_case_c08(rng):
     keys = rng.sample(pool, min(len(pool), rng.choice([3, 4, 6])))
     u = Uniq()
     ops = []
+    used = {}
     for _ in range(rng.choice([20, 40, 60])):
         o = rng.choice(OPS08)
         if o in ('cset', 'aset'):
-            ops.append([o, enc(rng.choice(keys)), enc(value_pool(b, rng, u))])
+            k = rng.choice(keys)
+            v = value_pool(b, rng, u)
+            hist = used.setdefault(repr(k), [])
+            if hist and rng.random() < 0.3:
+                v = rng.choice(hist)          # a value this key held before (A -> B -> A histories)
+            elif not isinstance(v, dict):
+                hist.append(v)
+            ops.append([o, enc(k), enc(v)])
         elif o in ('cdel', 'cpop', 'adel'):
             ops.append([o, enc(rng.choice(keys))])
         elif o == 'cupdate':
@@ -722,6 +740,13 @@ class Run08(object):
             self.arch, self.A = new, {}
             self.have, self.parked, self.on = True, False, True
             self.b_open = True
+        elif o == 'assign':
+            # cache.archive = X (what f.archive(X) does): X becomes the attached archive, archiving is on,
+            # and whatever was parked by archived(False) is forgotten
+            new = _KA.dict_archive()
+            c.archive = new
+            self.arch, self.A = new, {}
+            self.have, self.parked, self.on = True, False, True
         elif o == 'drop':
             try:
                 c.drop()
